@@ -21,7 +21,7 @@ ASSUMPTIONS = [
     "frequency coincidence is judged within the library's default resolution 1e-3; a harmonic is expected iff k*w0 <= w_max in binary64 arithmetic; a reported harmonic within 4 ulp above w_max is tolerated",
     "sources are ideal (lossy sources are covered at their own frequency by C02)",
 ]
-N_CIRC = {'quick': 1400, 'thorough': 20000}
+N_CIRC = {'quick': 2100, 'thorough': 20000}
 W_RES = 1e-3
 WAVES = ['rect', 'tri', 'saw', 'cos', 'sin']
 
@@ -29,8 +29,17 @@ WAVES = ['rect', 'tri', 'saw', 'cos', 'sin']
 def generate(tier, seed, shard, nshards):
     rng = random.Random(f'C09/{seed}/{shard}')
     for k in range(N_CIRC[tier] // nshards):
-        stratum = ['unrelated', 'exact-coincidence', 'rounding-coincidence', 'no-periodic'][k % 4]
-        if stratum == 'rounding-coincidence':
+        stratum = ['unrelated', 'exact-coincidence', 'rounding-coincidence', 'no-periodic', 'near-coincidence'][k % 5]
+        if stratum == 'near-coincidence':
+            # an AC source close to a harmonic: either inside the resolution (one merged line, both sources active) or clearly
+            # outside it but closer than w_resolution*w0 (two separate lines, the harmonic must not leak into the AC line)
+            w0 = rng.choice([G.value(rng, 1, 3), rng.choice([0.1, 0.3, 0.7])])
+            mult = rng.choice([1, 2, 3, 5])
+            if rng.random() < 0.5 or w0 <= 1.5:
+                wac = w0 * mult + rng.choice([-0.4, 0.4, -0.7, 0.7]) * W_RES
+            else:
+                wac = w0 * mult + rng.choice([-1, 1]) * W_RES * w0 * rng.choice([0.3, 0.6])
+        elif stratum == 'rounding-coincidence':
             w0 = rng.choice([0.1, 0.7, 1.1, 0.3])
             mult = rng.choice([3, 6, 7])
             wac = float(f'{w0 * mult:.10g}')            # e.g. 0.3 while 3*0.1 = 0.30000000000000004
@@ -283,7 +292,7 @@ def guards(m, tier):
     c = m['counters']
     r = []
     q = tier == 'quick'
-    for k, need in (('circuits_judged', 200), ('stratum_rounding-coincidence', 30), ('stratum_exact-coincidence', 30), ('spectral_lines_compared', 3000),
+    for k, need in (('circuits_judged', 200), ('stratum_rounding-coincidence', 30), ('stratum_exact-coincidence', 30), ('stratum_near-coincidence', 30), ('spectral_lines_compared', 3000),
                     ('time_functions_compared', 2000), ('additivity_checked', 150), ('periodic_waveforms_checked', 40)):
         need = need if q else need * 12
         if c.get(k, 0) < need:
